@@ -84,15 +84,18 @@ theorem hash_eq_fips (m : List UInt8) (hlen : m.length < 2 ^ 61) : hash m = Spec
 
 /-- a hasher is reusable (`Reusable`: initial hash value, count 0, 64-byte buffer of arbitrary content,
 no out-of-range read recorded)
-when constructed, after `finalize()` (whatever was hashed before) and after `reset()` (whatever
-was fed before, of any length); and on every reusable hasher every chunking gives the FIPS digest -/
+when constructed, after `finalize()` and after `reset()` - whatever was fed before, of ANY length (the
+last two conjuncts have no length hypothesis; only the digest statement carries the standard's
+`< 2^61` bytes); and on every reusable hasher every chunking gives the FIPS digest -/
 theorem reusable_after_finalize_or_reset :
     Reusable init ∧
     (∀ p : Sha, Reusable p → ∀ chunks : List (List UInt8), chunks.flatten.length < 2 ^ 61 →
       (finalize (chunks.foldl update p)).1 = Spec.sha256 chunks.flatten ∧
       Reusable (finalize (chunks.foldl update p)).2) ∧
+    (∀ p : Sha, Reusable p → ∀ junk : List (List UInt8), Reusable (finalize (junk.foldl update p)).2) ∧
     (∀ p : Sha, Reusable p → ∀ junk : List (List UInt8), Reusable (reset (junk.foldl update p))) := by
-  refine ⟨(inv_nil_iff _).mp inv_init, fun p hp chunks h => digest_chunks p hp chunks h, fun p hp junk => ?_⟩
+  refine ⟨(inv_nil_iff _).mp inv_init, fun p hp chunks h => digest_chunks p hp chunks h,
+    fun p hp junk => finalize_reusable _ (foldl_update_wellFormed junk p (reusable_wellFormed p hp)), fun p hp junk => ?_⟩
   have hw := foldl_update_wellFormed junk p (reusable_wellFormed p hp)
   exact (inv_nil_iff _).mp (inv_reset _ hw.1 hw.2.2)
 
@@ -116,7 +119,7 @@ theorem hmac_eq_rfc2104 (key msg : List UInt8) (hk : key.length < 2 ^ 61) (hm : 
 /-! ### non-vacuity: the hypotheses are met by concrete non-trivial inputs -/
 
 example : ([[0x61], [], [0x62, 0x63]] : List (List UInt8)).flatten.length < 2 ^ 61 := by decide
-example : Reusable (reset (update init [1, 2, 3])) := (reusable_after_finalize_or_reset.2.2 init reusable_after_finalize_or_reset.1 [[1, 2, 3]])
+example : Reusable (reset (update init [1, 2, 3])) := (reusable_after_finalize_or_reset.2.2.2 init reusable_after_finalize_or_reset.1 [[1, 2, 3]])
 example : (List.replicate 70 (0xaa : UInt8)).length < 2 ^ 61 ∧ ([0x61] : List UInt8).length + 64 < 2 ^ 61 := by decide
 example : Sha256.H0.length = 8 ∧ (data32 (List.replicate 64 0)).length = 16 := by decide
 
@@ -131,5 +134,7 @@ example : Spec.sha256 [] = [0xe3, 0xb0, 0xc4, 0x42, 0x98, 0xfc, 0x1c, 0x14, 0x9a
 example : Spec.sha256 [0x61, 0x62, 0x63, 0x64, 0x62, 0x63, 0x64, 0x65, 0x63, 0x64, 0x65, 0x66, 0x64, 0x65, 0x66, 0x67, 0x65, 0x66, 0x67, 0x68, 0x66, 0x67, 0x68, 0x69, 0x67, 0x68, 0x69, 0x6a, 0x68, 0x69, 0x6a, 0x6b, 0x69, 0x6a, 0x6b, 0x6c, 0x6a, 0x6b, 0x6c, 0x6d, 0x6b, 0x6c, 0x6d, 0x6e, 0x6c, 0x6d, 0x6e, 0x6f, 0x6d, 0x6e, 0x6f, 0x70, 0x6e, 0x6f, 0x70, 0x71] = [0x24, 0x8d, 0x6a, 0x61, 0xd2, 0x06, 0x38, 0xb8, 0xe5, 0xc0, 0x26, 0x93, 0x0c, 0x3e, 0x60, 0x39, 0xa3, 0x3c, 0xe4, 0x59, 0x64, 0xff, 0x21, 0x67, 0xf6, 0xec, 0xed, 0xd4, 0x19, 0xdb, 0x06, 0xc1] := by decide +kernel
 /-- RFC 4231 test case 1 -/
 example : Spec.hmacSha256 (List.replicate 20 0x0b) [0x48, 0x69, 0x20, 0x54, 0x68, 0x65, 0x72, 0x65] = [0xb0, 0x34, 0x4c, 0x61, 0xd8, 0xdb, 0x38, 0x53, 0x5c, 0xa8, 0xaf, 0xce, 0xaf, 0x0b, 0xf1, 0x2b, 0x88, 0x1d, 0xc2, 0x00, 0xc9, 0x83, 0x3d, 0xa7, 0x26, 0xe9, 0x37, 0x6c, 0x2e, 0x32, 0xcf, 0xf7] := by decide +kernel
+/-- RFC 4231 test case 6: 131-byte key, the `key.length > B` branch of `Spec.hmacKey` ("hash key first") -/
+example : Spec.hmacSha256 (List.replicate 131 0xaa) [0x54, 0x65, 0x73, 0x74, 0x20, 0x55, 0x73, 0x69, 0x6e, 0x67, 0x20, 0x4c, 0x61, 0x72, 0x67, 0x65, 0x72, 0x20, 0x54, 0x68, 0x61, 0x6e, 0x20, 0x42, 0x6c, 0x6f, 0x63, 0x6b, 0x2d, 0x53, 0x69, 0x7a, 0x65, 0x20, 0x4b, 0x65, 0x79, 0x20, 0x2d, 0x20, 0x48, 0x61, 0x73, 0x68, 0x20, 0x4b, 0x65, 0x79, 0x20, 0x46, 0x69, 0x72, 0x73, 0x74] = [0x60, 0xe4, 0x31, 0x59, 0x1e, 0xe0, 0xb6, 0x7f, 0x0d, 0x8a, 0x26, 0xaa, 0xcb, 0xf5, 0xb7, 0x7f, 0x8e, 0x0b, 0xc6, 0x21, 0x37, 0x28, 0xc5, 0x14, 0x05, 0x46, 0x04, 0x0f, 0x0e, 0xe3, 0x7f, 0x54] := by decide +kernel
 
 end Nstd.Sha
